@@ -131,7 +131,7 @@ def tasks(tier):
         else:
             shapes = MODELS
         for shape in shapes:
-            out.append({"family": fam, "model": shape, "ops": 2 if quick else 3, "reduced": quick})
+            out.append({"family": fam, "model": shape, "ops": 2 if quick else 3, "reduced": quick, "subclass_first": fam in ("ints", "strs") and shape == "property"})
     return out
 
 
@@ -144,12 +144,12 @@ BOUNDS = {
     "strings incl. '', tuples incl. (), enum members, two mixes of distinct falsy values); model shapes {default, plain attribute, property-backed with a "
     "write log, class-level default, falsy object defining __len__, custom state_field}; start_value {absent, each state's value, unmapped}; model empty or already holding any state's value; a script of 2 "
     "operations (the second from a reduced menu) from {send go, send stay, write a valid value (an equal but freshly built object) straight into the model, write a symbolic int / a pool value through the setter, send with a "
-    "callback that writes the model during `on` or `after`}; after every operation field, current_state, current_state_value, is_active of every state and "
+    "callback that writes the model during `on` or `after`, assign a State object of this or of another machine class to current_state}; for two families a subclass adding a state is defined first (its value stays unmapped for the base); after every operation field, current_state, current_state_value, is_active of every state and "
     "model identity are compared with the expectation.",
     "thorough": "scripts of 3 operations, every family x model shape.",
 }
 OUTSIDE = "values that are unhashable or compare equal across types (1 vs True); models that reject attribute assignment; Django model fields"
-OBLIGATIONS = ["resumed-from-stored", "start-value-used", "start-value-falsy", "external-write-seen", "setter-unmapped-rejected", "setter-mapped", "falsy-value-active", "falsy-model-kept", "callback-write", "unmapped-start-rejected"]
+OBLIGATIONS = ["foreign-state-assigned", "resumed-from-stored", "start-value-used", "start-value-falsy", "external-write-seen", "setter-unmapped-rejected", "setter-mapped", "falsy-value-active", "falsy-model-kept", "callback-write", "unmapped-start-rejected"]
 ASSUMPTIONS = [
     "class, model and instance are built under the tracer only as far as the constructor is concerned (the class statement is native)",
     "an unmapped value written *directly* into the model cannot be prevented; reading the state then raises InvalidStateValue (checked), the setter refuses it without storing (checked)",
@@ -176,6 +176,13 @@ def run(ctx, params):
     with ctx.notracing():
         cls = build_machine(values, hook)
         model, writes = build_model(shape, field)
+        if params.get("subclass_first"):
+            # a subclass that adds a state (with a value the base does not map) is defined before the base is used
+            from statemachine import State
+
+            class Sub(cls):
+                extra = State(value="only-in-subclass")
+                jump = cls.s0.to(extra) | extra.to(cls.s0)
     kw = {}
     if field != "state":
         kw["state_field"] = field
@@ -238,7 +245,7 @@ def run(ctx, params):
         if params["reduced"] and k > 0:
             op = [0, 1, 2, 3][ctx.choose(4, f"op{k}")]
         else:
-            op = ctx.choose(5, f"op{k}")
+            op = ctx.choose(6, f"op{k}")
         small = params["reduced"]
         if op == 0:
             sm.send("go")
@@ -259,7 +266,7 @@ def run(ctx, params):
             if fam in ("ints", "ints2"):
                 v = ctx.sym_int(f"sv{k}", -2, 8)
             else:
-                pool = ["no-such-value"] if small and k > 0 else [vals[(exp + 2) % 3], vals[exp], "no-such-value", None] if small else list(vals) + ["no-such-value", None, 99]
+                pool = ["no-such-value"] if small and k > 0 else [vals[(exp + 2) % 3], vals[exp], "no-such-value", None, "only-in-subclass"] if small else list(vals) + ["no-such-value", None, 99, "only-in-subclass"]
                 v = pool[ctx.choose(len(pool), f"sv{k}")]
             hit = None
             for j in range(3):
@@ -291,5 +298,34 @@ def run(ctx, params):
             exp = tgt if phase == "on" else j
             ctx.cover("callback-write")
             history.append(f"{ev}+write-in-{phase}")
+        elif op == 5:
+            # assign a State object through the `current_state` setter: one of this machine (valid) or of another class
+            which = ctx.choose(3, f"cs{k}")
+            if which == 0:
+                j = (exp + 1) % 3
+                sm.current_state = getattr(cls, IDS[j])
+                exp = j
+                history.append("current_state=own")
+            else:
+                from statemachine import State, StateMachine
+
+                with ctx.notracing():
+                    class Other(StateMachine):
+                        z0 = State(initial=True, value="zz-unmapped")
+                        z1 = State(value=vals[exp])  # same value as our current state: still a valid value for us
+                        hop = z0.to(z1) | z1.to(z0)
+
+                foreign = Other.z0 if which == 1 else Other.z1
+                try:
+                    sm.current_state = foreign
+                    ok = True
+                except InvalidStateValue:
+                    ok = False
+                if which == 1 and ok:
+                    raise Mismatch(f"unmapped-value-stored:{tag}", "sm.current_state = <State of another class with an unmapped value> was stored")
+                if which == 2 and not ok:
+                    raise Mismatch(f"mapped-value-refused:{tag}", "a State carrying a mapped value was refused")
+                ctx.cover("foreign-state-assigned")
+                history.append(f"current_state=foreign{which}")
         verify(f"{history}")
     ctx.note({"family": fam, "model": shape, "start_value": sv_choice, "history": history})
